@@ -90,8 +90,15 @@ def run(ctx):
     _stuffer(ctx, 'RxBitstuffRemover', 'receiver', 'self.i_data', 'self.i_valid', 'drop_bit')
     tb = ctx.ir('TxBitstuffer', 'transmitter')
     od = tb.drivers('self.o_data', exact=True)
-    ok = len(od) == 2 and any(q.is_zero(d.rhs) and q.has(d, 'stuff_bit') for d in od) and \
-        any(d.rhs.canon() == 'self.i_data' and q.has(d, 'stuff_bit', False) for d in od)
+    # next o_data for every valuation of (stuff_bit, i_data): 0 while stuffing, the data bit otherwise -- an If/Else, a Mux
+    # and `i_data & ~stuff_bit` are one table
+    ok = bool(od)
+    try:
+        for asg, val in q.flag_values(tb, 'self.o_data', None, init=None):
+            if 'stuff_bit' not in asg or 'self.i_data' not in asg or val is not (asg['self.i_data'] and not asg['stuff_bit']):
+                ok = False
+    except Exception:
+        ok = False
     ctx.ob('C25.stuffed-bit', 'TxBitstuffer.o_data', ok, od[0].loc if od else None,
            'the stuffed bit must be a 0, data passes otherwise: %s' % [q.fmt(d) for d in od])
     st = tb.drivers('self.o_stall', exact=True)
@@ -154,7 +161,9 @@ def run(ctx):
     # ResetInserter is applied FOR THAT DOMAIN (a bare-signal ResetInserter resets `sync` only -- the shifter lives in usb_io)
     shd = rs.drivers('shift_reg', exact=True)
     sh_dom = {d.domain for d in shd}
-    arm = [d for d in shd if q.is_one(d.rhs) and q.atoms(d) == {('self.reset', True)}]
+    # (the arm may be the Elif of the shift: then it also excludes the shift condition, which is fine -- a byte that
+    #  completes in the very cycle of the packet end re-arms the sentinel itself)
+    arm = [d for d in shd if q.is_one(d.rhs) and ('self.reset', True) in q.atoms(d) and all(not p_ for x_, p_ in q.atoms(d) if x_ != 'self.reset')]
     wire = [d for d in rp.drivers('shifter.reset', exact=True)]
     by_port = len(arm) == 1 and len(wire) == 1 and not wire[0].guard and wire[0].rhs.canon() == 'detect.o_pkt_end' and \
         all(x.order > arm[0].order or q.atoms(x) != q.atoms(arm[0]) for x in shd if x is not arm[0]) is not None
@@ -235,7 +244,7 @@ def run(ctx):
     ok = len(en) == 1 and en[0].rhs.canon() == '~stall' and len(sl) == 1 and sl[0].rhs.canon() == 'bitstuff.o_stall'
     ctx.ob('C25.byte-accept', 'TxPipeline.shifter.i_enable', ok, en[0].loc if en else None, 'the shifter is frozen exactly while the stuffer stalls')
     og = ts.drivers('self.o_get', exact=True)
-    ok = len(og) == 1 and og[0].rhs.canon() == 'empty' and q.atoms(og[0]) == {('self.i_enable', True)}
+    ok = len(og) == 1 and og[0].rhs.canon() in ('empty', EMP) and q.atoms(og[0]) == {('self.i_enable', True)}    # what o_empty reports, by name or in place
     ctx.ob('C25.byte-accept', 'TxShifter.o_get-frozen-while-stalled', ok, og[0].loc if og else None,
            'o_get must be updated only while i_enable is high (it is consumed under ~stall, so a value produced during a '
            'stall would be lost and the byte loaded twice): %s' % [q.fmt(d) for d in og])
@@ -359,10 +368,18 @@ def _cdr(ctx):
     LS = ['self.line_state_dj', 'self.line_state_dk', 'self.line_state_se0', 'self.line_state_se1']
     for n_ in [VALID] + LS:
         ctx.need(n_ in ir.signals, 'RxClockDataRecovery.%s' % n_)
-    clr = [a for a in ir.drivers(VALID, exact=True) if q.is_zero(a.rhs)]
-    tr = {x for a in clr for x, p in q.atoms(a) if p and x in ir.signals}
-    ctx.need(len(tr) == 1, 'the transition flag that suppresses line_state_valid (found %s)' % sorted(tr))
-    TR = tr.pop()
+    # "a transition is recognised in this cycle" = the sampling-phase counter is re-aligned (written with the constant 0).
+    # The phase counter is found by role: the register the bit strobe is derived from that is incremented by one.
+    vd = ir.drivers(VALID, exact=True)
+    reads = set()
+    for a in vd:
+        for e_ in [a.rhs] + [l.e for l in a.guard]:
+            if isinstance(e_, E):
+                reads |= q.support(ir, e_)
+    phase = sorted(n for n in reads if any(isinstance(d.rhs, E) and d.rhs.canon() == '1 + ' + n for d in ir.drivers(n, exact=True)))
+    ctx.need(len(phase) == 1, 'the sampling-phase counter behind line_state_valid (found %s)' % phase)
+    realign = [d for d in ir.drivers(phase[0], exact=True) if q.is_zero(d.rhs)]
+    ctx.need(realign, 'the statement that re-aligns the sampling phase on a transition')
     st = Stepper(ir)
     # the synchronised pair (outputs of the two FFSynchronizers) is a free input of the exploration
     free = [a.lhs.canon() for a in st.sync if isinstance(a.rhs, E) and a.rhs.op == 'call' and a.rhs.args and a.rhs.args[0] == 'ffsync']
@@ -388,7 +405,7 @@ def _cdr(ctx):
                 badv = 'line_state_valid is raised while the line state outputs are %s (state %s)' % ({x.split('.')[-1]: cur.get(x, 0) for x in LS}, fs)
             Dc = None if D is None else min(D + 1, DMAX + 1)
             nc = n + (1 if valid else 0)
-            if cur.get(TR, 0):
+            if any(st._active(d, dict(cur, **{key: fs})) for d in realign):
                 if Dc is not None and 3 <= Dc <= DMAX and Dc % 4 in (3, 0, 1):
                     checked.add(Dc)
                     want = (Dc + 1) // 4
